@@ -538,6 +538,49 @@ static void filterMode(uint64_t seed, long long npos, bool onlyPrint) {
 }
 
 // ---------------------------------------------------------------------------------------------
+// proof game stage of the filter on "path:" lines (the state the iterated mode writes after its path search): the final position of a
+// game plus the first k moves of that game as the path. The stage runs up to three search passes with different heuristics and budgets.
+
+static void pathStageMode(uint64_t seed, long long n) {
+    Rng r(seed);
+    for (long long pi = 0; pi < n; pi++) {
+        GenGame G;
+        for (;;) { G = genGame(r); if (G.g.moves.size() >= 10 && G.g.moves.size() <= 44) break; }
+        const posgen::Game& g = G.g;
+        std::string goal = normFen(g.pos.back());
+        if (goal.empty()) continue;
+        // the tool wants the counters reset
+        { Position e; readFEN(goal, e); e.setFullMoveCounter(1); e.setHalfMoveClock(0); goal = TextIO::toFEN(e); }
+        int k = r.chance(30) ? 0 : r.below((int)g.moves.size() - 3);
+        std::string path, moves = uciMoves(g);
+        { Position e = TextIO::readFEN(TextIO::startPosFEN); UndoInfo ui;
+          for (int i = 0; i < k; i++) { Move m = toEng(g.moves[i]); path += " " + TextIO::moveToString(e, m, false); e.makeMove(m, ui); } }
+        std::string line = goal + " unknown: kernel: dummy extKernel: dummy path:" + path;
+        setCrumb("pathstage " + line + " | moves " + moves);
+        std::stringstream in, out, lg; in << line << "\n";
+        std::streambuf* old = std::clog.rdbuf(lg.rdbuf());
+        std::string err;
+        try { ProofGameFilter(1, 0, false).filterFens(in, out); } catch (const std::exception& e) { err = e.what(); }
+        std::clog.rdbuf(old);
+        rep.add("pathstage_lines");
+        if (!err.empty()) { viol("filter-exception", "line " + line + " | " + err); continue; }
+        std::string o = out.str(); while (!o.empty() && (o.back() == '\n' || o.back() == '\r')) o.pop_back();
+        std::vector<std::string> t = splitWs(o);
+        if (t.size() < 7) { viol("filter-no-verdict", "line " + line + " | output '" + o + "'"); continue; }
+        if (t[6] == "illegal:") { viol("declared-illegal", "path-stage line " + line + " | " + o.substr(0, 300) + " | moves " + moves); continue; }
+        if (t[6] == "legal:") {
+            std::vector<std::string> san; size_t i = 7; if (i < t.size() && t[i] == "proof:") i++;
+            for (; i < t.size(); i++) san.push_back(t[i]);
+            std::string why; rep.add("pathstage_proofs"); rep.add("proofs_replayed");
+            std::string l2 = lg.str();
+            if (l2.find("Non-admissible search") != std::string::npos || l2.find("non-admissible") != std::string::npos) rep.add("pathstage_proofs_after_later_passes");
+            if (!replayProof(goal, san, why)) viol("invalid-proof-game", "path-stage line " + line + " | " + why + " | proof has " + std::to_string(san.size()) + " moves: " + o.substr(0, 400));
+        } else rep.add("pathstage_unresolved");
+        rep.distinct.insert(fnv(line));
+    }
+}
+
+// ---------------------------------------------------------------------------------------------
 // replay mode
 
 static void replayMode() {
@@ -584,6 +627,7 @@ int main(int argc, char** argv) {
     if (mode == "bound") boundMode(seed, n);
     else if (mode == "filter") filterMode(seed, n, false);
     else if (mode == "genfens") filterMode(seed, n, true);
+    else if (mode == "pathstage") pathStageMode(seed, n);
     else { fprintf(stderr, "usage: h_pg bound|filter|genfens <seed> <n> [hashfile] | replay\n"); return 2; }
     rep.finish(argc > 4 ? argv[4] : nullptr);
     return 0;
